@@ -30,6 +30,7 @@ def run_one(prop, m, idx):
         env = dict(os.environ)
         env["VERIF_REPO"] = scratch
         env["VERIF_CACHE_SUFFIX"] = "_mut%d" % idx
+        env["VERIF_NO_BOUNDED"] = "1"
         out = subprocess.run([sys.executable, os.path.join(HERE, "check.py"), prop, "--raw-json"],
                              capture_output=True, text=True, env=env)
         line = [l for l in out.stdout.split("\n") if l.startswith("{")]
